@@ -6,6 +6,9 @@ import OnlVerif.Tcp.Loop
   timer is pending, the `run` process is neither scheduled nor about to be handed a wake-up token.  The real run ends
   exactly in such a state.
 * `Complete l n`: the sink holds the `n` bytes of the flow contiguously and the sender's acknowledged mark is `n`.
+* `Fair l a`: the actions a loss-free stretch of a simulation run takes - every enabled burst may happen, in any order;
+  the clock advances only when nothing is in flight, and then exactly to the next timer wake-up (`FairStep`).
+* `BStep`: runs with a loss budget: a fair step, or the loss of a packet in flight, which consumes one unit.
 
 Not executed by the driver.
 -/
@@ -38,4 +41,37 @@ def run (l : Loop α) : List (LAct α) → Option (Loop α)
     | some l' => run l' rest
     | none => none
 
+/-! ## fair runs with finitely many losses -/
+
+/-- What the simulation kernel does between losses.  Every burst that is enabled may be taken, in any order
+(resumption of `run`, token hand-off, expiry of a due timer, delivery of the head of the data path, arrival of the head
+of the ACK path).  The clock advances only when neither path holds a packet (deliveries are not postponed beyond a
+timer expiry), strictly, and exactly to the wake-up instant of some live timer - `Sender.tickStep` itself refuses to
+pass a timer that is due or a pending resumption/hand-off, so that instant is the earliest one: the kernel jumps to
+its next event. -/
+inductive Fair (l : Loop α) : LAct α → Prop
+  | wake (fuel : Nat) : Fair l (.own (.wake fuel))
+  | handoff : Fair l (.own .handoff)
+  | fire (q : Nat) : Fair l (.own (.fire q))
+  | deliver : Fair l .deliver
+  | ackArrive : Fair l .ackArrive
+  | tick (t : α) : l.data = [] → l.acks = [] → l.snd.now < t →
+      (∃ kv ∈ l.snd.timers, kv.2.live = true ∧ Num.eqb kv.2.wake t = true) → Fair l (.own (.tick t))
+
+/-- one loss-free step of a run -/
+def FairStep (l l' : Loop α) : Prop := ∃ a, Fair l a ∧ l.step a = some l'
+
+/-- a run with a loss budget: `(k, l)` may take a fair step, or - while `k > 0` - lose any packet or ACK in flight,
+which leaves `k - 1` -/
+inductive BStep : Nat × Loop α → Nat × Loop α → Prop
+  | fair {k : Nat} {l l' : Loop α} : FairStep l l' → BStep (k, l) (k, l')
+  | dropData {k : Nat} {l l' : Loop α} (i : Nat) : l.step (.dropData i) = some l' → BStep (k + 1, l) (k, l')
+  | dropAck {k : Nat} {l l' : Loop α} (i : Nat) : l.step (.dropAck i) = some l' → BStep (k + 1, l) (k, l')
+
 end Loop
+
+/-- an action that loses nothing -/
+def LAct.noDrop {α : Type} : LAct α → Bool
+  | .dropData _ => false
+  | .dropAck _ => false
+  | _ => true
